@@ -18,6 +18,15 @@ Slab == { <<5, 4, 0>>, <<-5, 4, 0>>, <<5, -4, 0>>, <<-5, -4, 0>>, <<4, 3, 1>>, <
 \* a wedge whose ridge is sharp only on the short stretch (0,-1,0)-(0,0,0); behind it a nearly flat bevel facet descends:
 \* the nearest feature of points above the tip is not on the facet they are furthest outside of
 Ridge == { <<4, -16, -8>>, <<-4, -16, -8>>, <<1, -16, -2>>, <<-1, -16, -2>>, <<0, -1, 0>>, <<0, 0, 0>>, <<4, 0, -8>>, <<-4, 0, -8>> }
+\* slender asymmetric solids (a far apex over a small base): the centroid is far from the farthest vertex, so shortcuts that
+\* measure a bounding radius from the wrong point cut off the cap under the apex
+Spike == { <<1, 1, 0>>, <<-1, 1, 0>>, <<1, -1, 0>>, <<-1, -1, 0>>, <<0, 0, 16>> }
+SkewSpike == { <<0, 0, 0>>, <<3, 0, 0>>, <<0, 3, 0>>, <<1, 1, 18>> }
+\* a wedge whose knife edge has an interior dihedral angle of 0.76 degrees (2 atan(1/150))
+Knife == { <<0, 0, 0>>, <<2, 0, 0>>, <<0, 150, 1>>, <<0, 150, -1>>, <<2, 150, 1>>, <<2, 150, -1>> }
+\* the cube with one corner pushed out along the diagonal: three square faces break into two triangles each (9 facets); the
+\* same combinatorial structure holds for every positive push, which the harness scales down to 1e-8 of the edge
+Lifted == { <<0, 0, 0>>, <<2, 0, 0>>, <<0, 2, 0>>, <<0, 0, 2>>, <<2, 2, 0>>, <<2, 0, 2>>, <<0, 2, 2>>, <<3, 3, 3>> }
 Zero == <<0, 0, 0>>
 Far == <<40, -30, 20>>
 =============================================================================
